@@ -785,6 +785,15 @@ func r42CornerOfOrigin(c *core.Ctx) {
 			switch name {
 			case "tms20.TileMatrixSet.FromNative":
 				y := e.varNamed("y")
+				// the row as handed to slippy.NewTile, whatever the locals are called
+				if _, rowE := newTileArgs(c, f); rowE != nil {
+					if p, ok := e.eval(rowE); ok {
+						for _, r := range arms.renames {
+							p = pRename(p, r[0], r[1])
+						}
+						y = p
+					}
+				}
 				if y == nil {
 					return false, "no y"
 				}
@@ -1006,16 +1015,28 @@ func evalIsLatLon(fn *ssa.Function, vals map[string]string, table map[uint64]boo
 	if len(fn.Params) != 1 {
 		return "", "has an unexpected signature"
 	}
-	crs := fn.Params[0]
+	return evalAxisOrderFn(fn, map[ssa.Value]string{}, fn.Params[0], vals, table, 0)
+}
+
+// evalAxisOrderFn follows fn with string parameters bound to known values (bind) and, in the entry function, the
+// CRS parameter's Authority()/Version()/Code() bound to vals.  A result pair taken from a module helper is
+// followed into that helper.
+func evalAxisOrderFn(fn *ssa.Function, bind map[ssa.Value]string, crs ssa.Value, vals map[string]string, table map[uint64]bool, depth int) (string, string) {
+	if depth > 3 {
+		return "", "nests helpers too deeply"
+	}
 	var strOf func(v ssa.Value) (string, bool)
 	strOf = func(v ssa.Value) (string, bool) {
+		if s, ok := bind[v]; ok {
+			return s, true
+		}
 		switch x := v.(type) {
 		case *ssa.Const:
 			if x.Value != nil && x.Value.Kind() == constant.String {
 				return constant.StringVal(x.Value), true
 			}
 		case *ssa.Call:
-			if x.Call.IsInvoke() && x.Call.Value == ssa.Value(crs) {
+			if x.Call.IsInvoke() && crs != nil && x.Call.Value == crs {
 				s, ok := vals[x.Call.Method.Name()]
 				return s, ok
 			}
@@ -1030,8 +1051,6 @@ func evalIsLatLon(fn *ssa.Function, vals map[string]string, table map[uint64]boo
 		}
 		return "", false
 	}
-	code, _ := vals["Code"]
-	num, perr := strconv.ParseUint(code, 10, 64)
 	atom := func(fr *boolFrame, v ssa.Value) (string, bool, bool) {
 		switch x := v.(type) {
 		case *ssa.BinOp:
@@ -1039,29 +1058,38 @@ func evalIsLatLon(fn *ssa.Function, vals map[string]string, table map[uint64]boo
 				l, lok := strOf(x.X)
 				r, rok := strOf(x.Y)
 				if lok && rok {
-					if (l == r) == (x.Op == token.EQL) {
-						return "TRUE", false, true
-					}
-					return "TRUE", true, true
+					return "TRUE", (l == r) != (x.Op == token.EQL), true
 				}
-				// err != nil after ParseUint(code)
+				// err != nil after ParseUint(<known string>)
 				if ex, ok := x.X.(*ssa.Extract); ok && ex.Index == 1 {
 					if call, ok := ex.Tuple.(*ssa.Call); ok && core.StaticCalleeID(call) == "strconv.ParseUint" {
 						if k, isK := x.Y.(*ssa.Const); isK && k.IsNil() {
-							if s, ok := strOf(call.Call.Args[0]); ok && s == code {
-								isNil := perr == nil
-								return "TRUE", isNil == (x.Op == token.NEQ), true
+							if s, ok := strOf(call.Call.Args[0]); ok {
+								_, perr := strconv.ParseUint(s, 10, 64)
+								return "TRUE", (perr == nil) == (x.Op == token.NEQ), true
 							}
 						}
 					}
 				}
 			}
 		case *ssa.Extract:
-			// known := table[uint(code)]
+			// known := table[uint(<parsed known string>)]
 			if lk, ok := x.Tuple.(*ssa.Lookup); ok && lk.CommaOk && x.Index == 1 {
 				if g, ok := lk.X.(*ssa.UnOp); ok {
-					if gl, ok := g.X.(*ssa.Global); ok && gl.Name() == "epsgAxesAreLatLon" && perr == nil {
-						return "TRUE", !table[num], true
+					if gl, ok := g.X.(*ssa.Global); ok && gl.Name() == "epsgAxesAreLatLon" {
+						key := lk.Index
+						if cv, ok := key.(*ssa.Convert); ok {
+							key = cv.X
+						}
+						if ex, ok := key.(*ssa.Extract); ok && ex.Index == 0 {
+							if call, ok := ex.Tuple.(*ssa.Call); ok && core.StaticCalleeID(call) == "strconv.ParseUint" {
+								if s, ok := strOf(call.Call.Args[0]); ok {
+									if num, perr := strconv.ParseUint(s, 10, 64); perr == nil {
+										return "TRUE", !table[num], true
+									}
+								}
+							}
+						}
 					}
 				}
 			}
@@ -1076,6 +1104,29 @@ func evalIsLatLon(fn *ssa.Function, vals map[string]string, table map[uint64]boo
 	}
 	if out.kind != "return" || out.ret == nil || len(out.ret.Results) != 2 {
 		return "", "does not return"
+	}
+	// the pair handed on from a module helper
+	if e0, ok := out.ret.Results[0].(*ssa.Extract); ok {
+		if e1, ok := out.ret.Results[1].(*ssa.Extract); ok && e0.Tuple == e1.Tuple && e0.Index == 0 && e1.Index == 1 {
+			if call, ok := e0.Tuple.(*ssa.Call); ok {
+				if g := call.Call.StaticCallee(); g != nil && len(g.Blocks) > 0 && core.IsModPath(core.FuncPkgPath(g)) {
+					sub := map[ssa.Value]string{}
+					var subCRS ssa.Value
+					for i, a := range call.Call.Args {
+						if i >= len(g.Params) {
+							break
+						}
+						if s, ok := strOf(a); ok {
+							sub[g.Params[i]] = s
+						}
+						if crs != nil && a == crs {
+							subCRS = g.Params[i]
+						}
+					}
+					return evalAxisOrderFn(g, sub, subCRS, vals, table, depth+1)
+				}
+			}
+		}
 	}
 	if k, ok := out.ret.Results[1].(*ssa.Const); !ok || !k.IsNil() {
 		return "", "returns an error (" + out.ret.Results[1].String() + ")"
